@@ -65,7 +65,7 @@ impl Kind {
     }
 }
 
-const WRAPS: [&str; 9] = ["none", "macro", "macro-uninvoked", "if1", "if0", "interp", "loop", "loopdef", "macro-arg"];
+const WRAPS: [&str; 10] = ["none", "macro", "macro-uninvoked", "if1", "if0", "interp", "loop", "loopdef", "macro-arg", "macro-arg-same-name"];
 const FORMS: [&str; 5] = ["a", "super.a", "super.super.a", "s1.a", "s1.s2.a"];
 const LEVELS: [&str; 3] = ["root", "s1", "s2"];
 const IMPORTS: [&str; 6] = ["star", "named", "alias", "ns", "twice", "block"];
@@ -138,7 +138,7 @@ impl Spec {
 }
 
 pub fn catalogue(thorough: bool) -> Vec<Spec> {
-    let wraps: Vec<usize> = if thorough { (0..WRAPS.len()).collect() } else { vec![0] };
+    let wraps: Vec<usize> = if thorough { (0..WRAPS.len()).collect() } else { vec![0, WRAPS.len() - 1] };
     let kinds = [Kind::N, Kind::L, Kind::C];
     let mut out = vec![];
     for k0 in kinds {
@@ -436,15 +436,17 @@ impl Gen {
                     });
                 }
             }
-            "macro-arg" => {
+            "macro-arg" | "macro-arg-same-name" => {
+                // (same-name: the parameter is called `a` like the symbols of the catalogue)
+                let pn = if w == "macro-arg" { "p" } else { "a" };
                 // the path is the argument of the invocation; the body emits the parameter
-                let l = self.line(f, format!("{}.macro m(p) {{", i));
+                let l = self.line(f, format!("{}.macro m({}) {{", i, pn));
                 self.add_def(f, l, i.len() as u32 + 7, "m", "macro", None, None, w, level);
-                self.add_def(f, l, i.len() as u32 + 9, "p", "macro-arg", None, None, w, level);
-                self.use_block(f, ind + 1, 0, "p", level, "p", w, false);
+                self.add_def(f, l, i.len() as u32 + 9, pn, "macro-arg", None, None, w, level);
+                self.use_block(f, ind + 1, 0, pn, level, pn, w, false);
                 // `p` in the body refers to the parameter by construction
                 let last = self.occs.len() - 1;
-                self.occs[last].role = Role::KnownName("p".into());
+                self.occs[last].role = Role::KnownName(format!("param:{}", pn));
                 self.close(f, ind);
                 let l = self.line(f, format!("{}m({})", i, path));
                 let form = self.form("m()");
@@ -653,6 +655,8 @@ pub fn generate(spec: &Spec) -> Program {
         if let Role::KnownName(n) = &p.occs[i].role {
             let d = if n == "other:a" {
                 p.defs.iter().position(|d| d.level == "other" && d.name == "a")
+            } else if let Some(pn) = n.strip_prefix("param:") {
+                p.defs.iter().position(|d| d.kind == "macro-arg" && d.name == pn)
             } else {
                 p.defs.iter().position(|d| &d.name == n)
             };
@@ -1949,7 +1953,7 @@ pub fn run(ctx: &Ctx, replay: Option<&Value>) -> i32 {
         "bound",
         json!({
             "levels": 3, "definition_kinds": ["none", "label", "const"], "path_forms": FORMS,
-            "wrappers": if ctx.tier.is_thorough() { WRAPS.to_vec() } else { vec!["none"] },
+            "wrappers": if ctx.tier.is_thorough() { WRAPS.to_vec() } else { vec!["none", "macro-arg-same-name"] },
             "orders": if c15 && !ctx.tier.is_thorough() { json!(["definitions-first"]) } else { json!(["definitions-first (all wrappers)", "uses-first (unwrapped use only)"]) },
             "imports": IMPORTS,
             "positions": if c15 { json!(["start", "middle", "end"]) } else { json!(["first char", "last char"]) },
